@@ -109,6 +109,22 @@ func c16Gen(r *obs.Run) []c16pair {
 		seen[c16Key(p)] = true
 		out = append(out, p)
 	}
+	if !far && rng.Intn(12) == 0 {
+		// the same layout once more 2^32 (or 2^33) positions to the right: other pairs, on coordinates past 32 bits
+		var extra []c16pair
+		for _, p := range out {
+			if rng.Intn(2) == 0 {
+				d := (1 + rng.Intn(2)) << 32
+				q := c16pair{c16iv{p.A.Loc, p.A.S + d, p.A.E + d}, c16iv{p.B.Loc, p.B.S + d, p.B.E + d}, p.Score}
+				if !seen[c16Key(q)] {
+					seen[c16Key(q)] = true
+					extra = append(extra, q)
+				}
+			}
+		}
+		out = append(out, extra...)
+		r.Count("cases_with_a_copy_of_the_layout_2_32_to_the_right", 1)
+	}
 	if far { // applied at the end, so that no other interval is derived from these
 		// The starts stay within a span of less than 2^63: the interval tree of the
 		// github.com/biogo/store dependency orders its nodes by subtracting starts, and a
